@@ -1248,6 +1248,8 @@ def gen_cycles(rnd, plan, info, fs, heap, cycles=12, workers=1, warm=3, slack=C0
     if plan in ("SemiSpace", "GenCopy"):
         frac = 0.30            # a copying collector needs the copy reserve: 40% live + 40% reserve would OOM
     sems = [s for s in g.sems if s in ("Default", "Los", "NonMoving")]
+    if fs == "fs_imm_nonmoving":
+        sems = [s for s in sems if s != "NonMoving"]       # feature immortal_as_nonmoving: never reclaimed by design
     for c in range(cycles):
         target, got = int(heap * frac), 0
         # "topclass": sizes in the top size classes of the plan's default allocator, just below the large-object
